@@ -54,7 +54,7 @@ Proof.
   - (* AddChecks *)
     destruct (bad_checks k) as [e|] eqn:Hb.
     + apply bad_here; [exact Ho|exact Hr| |reflexivity]. cbn [step].
-      rewrite (add_checks_bad i (SB t b) ty k e eq_refl eq_refl Hb). apply mut_fail.
+      rewrite (add_checks_bad i (SB t b) ty k e eq_refl eq_refl Hb). apply mut_fail; try reflexivity; try exact He.
     + destruct k as [k|]; [|discriminate Hb].
       assert (Hg : add_checks i ty (Some k) (SB t b) =
                    match ty with
@@ -69,7 +69,7 @@ Proof.
         now rewrite in_last_block_addb. }
       destruct ty as [g|].
       * destruct (bget g b) as [k0|] eqn:Hgb; cbn [is_none] in Hg.
-        -- apply bad_here; [exact Ho|exact Hr| |reflexivity]. cbn [step]. rewrite Hg. apply mut_fail.
+        -- apply bad_here; [exact Ho|exact Hr| |reflexivity]. cbn [step]. rewrite Hg. apply mut_fail; try reflexivity; try exact He.
         -- cbn [run step]. rewrite Hg, mut_next by reflexivity.
            rewrite acts_level_SBK by (eapply no_reset_tail; exact Hr).
            apply (resume_follow d i (parse_acts (ka_acts k) r) (fun a => bset g (Some (K (ka_lab k) a)) b)
@@ -77,14 +77,14 @@ Proof.
            intros _. apply IH.
            ++ pose proof (suffix_length _ _ (parse_acts_suffix r (ka_acts k))). lia.
            ++ eapply suffix_no_reset; [apply parse_acts_suffix|eapply no_reset_tail; exact Hr].
-      * apply bad_here; [exact Ho|exact Hr| |reflexivity]. cbn [step]. rewrite Hg. apply mut_fail.
+      * apply bad_here; [exact Ho|exact Hr| |reflexivity]. cbn [step]. rewrite Hg. apply mut_fail; try reflexivity; try exact He.
   - (* AddBlock *)
     apply bad_here; [exact Ho|exact Hr| |reflexivity]. cbn [step].
-    rewrite misfit_block; [apply mut_fail|reflexivity|reflexivity|exact I].
+    rewrite misfit_block; [apply mut_fail; try reflexivity; try exact He|reflexivity|reflexivity|exact I].
   - (* AddSequence *)
     destruct (bad_seq q) as [e|] eqn:Hb.
     + apply bad_here; [exact Ho|exact Hr| |reflexivity]. cbn [step].
-      rewrite (add_seq_bad i (SB t b) q e eq_refl eq_refl Hb). apply mut_fail.
+      rewrite (add_seq_bad i (SB t b) q e eq_refl eq_refl Hb). apply mut_fail; try reflexivity; try exact He.
     + destruct q as [q|]; [|discriminate Hb].
       cbn [run step]. rewrite add_seq_good by (try reflexivity; exact Hb).
       cbn [chain SB mk tree]. rewrite in_last_block_addb.
@@ -98,7 +98,7 @@ Proof.
       * eapply suffix_no_reset; [apply parse_acts_suffix|eapply no_reset_tail; exact Hr].
   - (* AddAction *)
     apply bad_here; [exact Ho|exact Hr| |reflexivity]. cbn [step].
-    rewrite misfit_action; [apply mut_fail|reflexivity|reflexivity|exact I].
+    rewrite misfit_action; [apply mut_fail; try reflexivity; try exact He|reflexivity|reflexivity|exact I].
   - (* Plan() *)
     unfold follow. cbn [p_n p_stop p_val p_rest repeat app]. rewrite Nat.add_0_r.
     apply run_finish; [exact Ho|exact Hr|exact I|]. intros _. right. now exists r.
@@ -119,7 +119,7 @@ Proof.
   - (* AddChecks *)
     destruct (bad_checks k) as [e|] eqn:Hb.
     + apply bad_here; [exact Ho|exact Hr| |reflexivity]. cbn [step].
-      rewrite (add_checks_bad i (SP t) ty k e eq_refl eq_refl Hb). apply mut_fail.
+      rewrite (add_checks_bad i (SP t) ty k e eq_refl eq_refl Hb). apply mut_fail; try reflexivity; try exact He.
     + destruct k as [k|]; [|discriminate Hb].
       assert (Hg : add_checks i ty (Some k) (SP t) =
                    match ty with
@@ -131,7 +131,7 @@ Proof.
       { rewrite add_checks_good by (try reflexivity; exact Hb). reflexivity. }
       destruct ty as [g|].
       * destruct (pget g t) as [k0|] eqn:Hgb; cbn [is_none] in Hg.
-        -- apply bad_here; [exact Ho|exact Hr| |reflexivity]. cbn [step]. rewrite Hg. apply mut_fail.
+        -- apply bad_here; [exact Ho|exact Hr| |reflexivity]. cbn [step]. rewrite Hg. apply mut_fail; try reflexivity; try exact He.
         -- cbn [run step]. rewrite Hg, mut_next by reflexivity.
            rewrite acts_level_SPK by (eapply no_reset_tail; exact Hr).
            apply (resume_follow d i (parse_acts (ka_acts k) r) (fun a => pset g (Some (K (ka_lab k) a)) t)
@@ -139,11 +139,11 @@ Proof.
            intros _. apply IH.
            ++ pose proof (suffix_length _ _ (parse_acts_suffix r (ka_acts k))). lia.
            ++ eapply suffix_no_reset; [apply parse_acts_suffix|eapply no_reset_tail; exact Hr].
-      * apply bad_here; [exact Ho|exact Hr| |reflexivity]. cbn [step]. rewrite Hg. apply mut_fail.
+      * apply bad_here; [exact Ho|exact Hr| |reflexivity]. cbn [step]. rewrite Hg. apply mut_fail; try reflexivity; try exact He.
   - (* AddBlock *)
     destruct (bad_block a) as [e|] eqn:Hb.
     + apply bad_here; [exact Ho|exact Hr| |reflexivity]. cbn [step].
-      rewrite (add_block_bad i (SP t) a e eq_refl eq_refl Hb). apply mut_fail.
+      rewrite (add_block_bad i (SP t) a e eq_refl eq_refl Hb). apply mut_fail; try reflexivity; try exact He.
     + cbn [run step]. rewrite add_block_good by (try reflexivity; exact Hb).
       cbn [chain SP mk tree].
       rewrite mut_next by reflexivity.
@@ -156,10 +156,10 @@ Proof.
       * eapply suffix_no_reset; [apply parse_block_suffix|eapply no_reset_tail; exact Hr].
   - (* AddSequence *)
     apply bad_here; [exact Ho|exact Hr| |reflexivity]. cbn [step].
-    rewrite misfit_seq; [apply mut_fail|reflexivity|reflexivity|exact I].
+    rewrite misfit_seq; [apply mut_fail; try reflexivity; try exact He|reflexivity|reflexivity|exact I].
   - (* AddAction *)
     apply bad_here; [exact Ho|exact Hr| |reflexivity]. cbn [step].
-    rewrite misfit_action; [apply mut_fail|reflexivity|reflexivity|exact I].
+    rewrite misfit_action; [apply mut_fail; try reflexivity; try exact He|reflexivity|reflexivity|exact I].
   - (* Plan() *)
     unfold follow. cbn [p_n p_stop p_val p_rest repeat app]. rewrite Nat.add_0_r.
     apply run_finish; [exact Ho|exact Hr|exact I|]. intros _. right. now exists r.
